@@ -534,6 +534,7 @@ pub fn run(ctx: &mut Ctx) {
     ctx.run_suite(&EngineSuite);
     ctx.run_suite(&FileSuite);
     ctx.run_suite(&WiringSuite);
+    ctx.run_suite(&super::c12quic::QuicRandomSuite);
     ctx.assume("don't-care: masks whose two sides differ in length, are empty or longer than the random; empty prefix; CIDRs with host bits set; at the engine level an IPv4-mapped address against an IPv4 CIDR; rules with an unknown action or a wrongly typed field; absent random when only malformed patterns exist");
     ctx.assume("'dropped before the TLS handshake is answered' is covered at the call-site level (evaluate_connection_rules result) here; the socket-level observation belongs to the full-stack scenarios");
 }
@@ -543,6 +544,7 @@ pub fn replay(ctx: &mut Ctx, suite: &str, case: &Value) -> bool {
         "engine" => ctx.replay_suite(&EngineSuite, case),
         "rules-file" => ctx.replay_suite(&FileSuite, case),
         "wiring" => ctx.replay_suite(&WiringSuite, case),
+        "quic-client-random" => ctx.replay_suite(&super::c12quic::QuicRandomSuite, case),
         _ => false,
     }
 }
